@@ -117,6 +117,58 @@ Section MlJoin.
           cbn [fst snd]. rewrite !app_length, repeat_length, L1, L2. reflexivity.
   Qed.
 
+  (* the placeholder comes from the language-change collection of the part
+     it is written into (the language of sec), rotated by one; around it at
+     most the blank at each edge of the insertion *)
+  Theorem placeholder_of_part_language rot sec incl sec' rot' :
+    blank is_space (s_txt incl) = false ->
+    append_placeholder rot sec incl = Ok (sec', rot') ->
+    let key := check_lang (s_lang sec) in
+    let coll := match find (fun e => str_eqb (fst e) key) rot with
+                | Some e => snd e | None => [] end in
+    exists x r ph rest e1 e2,
+      coll = x :: r /\ r ++ [x] = ph :: rest /\
+      s_txt sec' = s_txt sec ++ e1 ++ ph ++ e2 /\
+      (e1 = [] \/ exists c, e1 = [c] /\ is_space c = true) /\
+      (e2 = [] \/ exists c, e2 = [c] /\ is_space c = true) /\
+      rot' = map (fun e => if str_eqb (fst e) key then (fst e, ph :: rest) else e) rot.
+  Proof.
+    intros Hb H key coll. unfold Ml.append_placeholder in H. rewrite Hb in H.
+    fold key in H. fold coll in H.
+    destruct coll as [|x r] eqn:Ec; [discriminate|].
+    destruct (r ++ [x]) as [|ph rest] eqn:Er.
+    { exfalso. apply (app_cons_not_nil r [] x). symmetry. exact Er. }
+    destruct (py_nth (s_pos incl) _) as [p0| | |]; cbn [rbind] in H; try discriminate.
+    assert (E1 : (exists t1 p1, edge_first is_space incl = Ok (t1, p1) /\
+                 (t1 = [] \/ exists c, t1 = [c] /\ is_space c = true)) \/
+                 (forall v, edge_first is_space incl <> Ok v)).
+    { unfold edge_first. destruct (s_txt incl) as [|c0 r0]; [left; eexists _, _; split; [reflexivity | left; reflexivity]|].
+      destruct (is_space c0) eqn:Es.
+      - destruct (py_nth (s_pos incl) 0) as [q| | |]; cbn [rbind].
+        + left. eexists _, _. split; [reflexivity|]. right. exists c0. split; [reflexivity | exact Es].
+        + right. intros v C; discriminate.
+        + right. intros v C; discriminate.
+        + right. intros v C; discriminate.
+      - left. eexists _, _. split; [reflexivity | left; reflexivity]. }
+    destruct E1 as [(t1 & p1 & E1 & Ht1)|E1]; [|destruct (edge_first is_space incl); cbn [rbind] in H; try discriminate; exfalso; eapply E1; reflexivity].
+    rewrite E1 in H. cbn [rbind] in H.
+    assert (E2 : (exists t2 p2, edge_last is_space incl = Ok (t2, p2) /\
+                 (t2 = [] \/ exists c, t2 = [c] /\ is_space c = true)) \/
+                 (forall v, edge_last is_space incl <> Ok v)).
+    { unfold edge_last. destruct (rev (s_txt incl)) as [|c1 r1]; [left; eexists _, _; split; [reflexivity | left; reflexivity]|].
+      destruct (is_space c1) eqn:Es.
+      - destruct (py_last (s_pos incl)) as [q| | |]; cbn [rbind].
+        + left. eexists _, _. split; [reflexivity|]. right. exists c1. split; [reflexivity | exact Es].
+        + right. intros v C; discriminate.
+        + right. intros v C; discriminate.
+        + right. intros v C; discriminate.
+      - left. eexists _, _. split; [reflexivity | left; reflexivity]. }
+    destruct E2 as [(t2 & p2 & E2 & Ht2)|E2]; [|destruct (edge_last is_space incl); cbn [rbind] in H; try discriminate; exfalso; eapply E2; reflexivity].
+    rewrite E2 in H. cbn [rbind] in H. inversion H; subst sec' rot'.
+    exists x, r, ph, rest, t1, t2. cbn [s_txt fst snd].
+    repeat split; try assumption; reflexivity.
+  Qed.
+
   (* the work list: its first entry may already be a gluing *)
   Theorem join_glued : forall fuel h g0 rest rot out res,
     glued h g0 ->
